@@ -156,15 +156,19 @@ def faultSched (fx : Fixes) (site : String) : List Label :=
   else if site == "eventsProvider" then
     (if fx.poll then [.pollPanic]
      else [.pollPanic, .core .gSendStopped, .core .coolElapsed, .core .sRespawn, .core .sSel, .core .gCall, .core .gSendErr, .core .sSel])
-  else if site == "resultStoreGC" then
-    -- escapes the result store's Start: recoverer cool-down, restart (restartable kind: runs again)
+  else if site == "v2PerformLogs" || site == "v2StaleLogs" || site == "v2CoordEncoder" then [.v2PollPanic]
+  else if site == "resultStoreGC" || site == "v2ActiveUpkeeps" || site == "v2ObsEncoder" || site == "v2CheckUpkeep" then
+    -- escapes the service's blocking call (result store's Start; the OCR2 polling observer's head loop, which sits behind
+    -- internal/util.RecoverableService — same protocol: recover, cool-down, run again): restartable kind, runs again
     [.core .gPanic, .core .gSendStopped, .core .coolElapsed, .core .sRespawn, .core .sSel, .core .gCall]
   else if site == "" then []
   else [.tick, .pPanic]
 
 /-- the settled instance the fault schedule starts from: the service kind that owns the site -/
 def faultStart (site : String) : State :=
-  if site == "resultStoreGC" then { settledS with core := settledL } else settledS
+  if site == "resultStoreGC" || site == "v2ActiveUpkeeps" || site == "v2ObsEncoder" || site == "v2CheckUpkeep" then
+    { settledS with core := settledL }
+  else settledS
 
 def predict (fx : Fixes) (cs : Case) (closedAtNs nNotRunning0 nNotStarted0 : Nat) (closeCalled : Bool) (panics : Nat) : Obs :=
   -- a Close issued after start-up has quiesced finds every recoverer settled: the model has no schedule in which it is
